@@ -78,7 +78,20 @@ pub fn a_dt(v: &Value) -> TemporalResult<PlainDateTime> {
         js::i(v, "h") as u8, js::i(v, "mi") as u8, js::i(v, "s") as u8,
         js::i(v, "ms") as u16, js::i(v, "us") as u16, js::i(v, "ns") as u16, a_cal(v)?)
 }
-pub fn a_dur(v: &Value) -> TemporalResult<Duration> { arg_duration(v) }
+/// a record whose days and time part have opposite signs (and no calendar units) stands for the value of the unchecked public
+/// constructor from_day_and_time - the only way to such a duration, in the core as in the FFI
+pub fn dur_is_mixed(v: &Value) -> bool {
+    let sg = |k: &str| v.get(k).map(|x| crate::ops_wrap::f64_exact(x)).unwrap_or(0.0);
+    let t = ["h", "mi", "s", "ms", "us", "ns"].iter().map(|k| sg(k)).find(|x| *x != 0.0).unwrap_or(0.0);
+    sg("y") == 0.0 && sg("mo") == 0.0 && sg("w") == 0.0 && sg("d") * t < 0.0
+}
+pub fn a_dur(v: &Value) -> TemporalResult<Duration> {
+    if dur_is_mixed(v) {
+        let f = |k: &str| v.get(k).map(ff).unwrap_or(temporal_rs::primitive::FiniteF64::from(0i8));
+        return Ok(Duration::from_day_and_time(f("d"), &TimeDuration::new(f("h"), f("mi"), f("s"), f("ms"), f("us"), f("ns"))?));
+    }
+    arg_duration(v)
+}
 pub fn a_ym(v: &Value) -> TemporalResult<PlainYearMonth> {
     PlainYearMonth::new_with_overflow(js::i(v, "y") as i32, js::i(v, "m") as u8, None, a_cal(v)?, ArithmeticOverflow::Reject)
 }
